@@ -320,6 +320,20 @@ func check(prop, tier string, writeLock bool, filter string) int {
 	if len(genErrs) > 0 {
 		return violation("vc-generation", strings.Join(genErrs, " | "))
 	}
+	for _, ma := range g.missing {
+		if !hasProp(ma.fc.Props, prop) {
+			continue
+		}
+		if filter != "" && !strings.Contains(ma.fc.Header, filter) {
+			continue
+		}
+		vc := g.newVC(strings.TrimPrefix(ma.fc.Header, "func "), nil, nil)
+		vc.curProps = ma.fc.Props
+		vc.addObl(&Obligation{Name: "anchor", Kind: "structural", PC: "true", Goal: "false",
+			Src: "the function this contract is written on exists  [" + ma.why + "]"})
+		vcs = append(vcs, vc)
+		obls = append(obls, vc.obls...)
+	}
 	{
 		// clauses tagged with a property list contribute their obligations to those properties only
 		kept := obls[:0]
@@ -384,9 +398,27 @@ func check(prop, tier string, writeLock bool, filter string) int {
 		}
 	}
 	if writeLock {
+		// the lock pins contract clauses (so that a removed or disabled clause is noticed), not the shape of the code: one
+		// line per clause, whatever the number of return points, back edges or call-site occurrences it is instantiated at;
+		// obligations derived from the code alone (frame checks per written heap component, reachability covers) are not
+		// locked. Returns recorded as unreachable keep their exact name (marked !dead).
+		seenL := map[string]bool{}
+		var lines []string
+		for _, n := range names {
+			l := n
+			if !strings.HasSuffix(n, " !dead") {
+				l = lockKey(n)
+			}
+			if l == "" || seenL[l] {
+				continue
+			}
+			seenL[l] = true
+			lines = append(lines, l)
+		}
+		sort.Strings(lines)
 		_ = os.MkdirAll(filepath.Dir(lockPath), 0o755)
-		_ = os.WriteFile(lockPath, []byte(strings.Join(names, "\n")+"\n"), 0o644)
-		fmt.Printf("wrote %s (%d obligations)\n", lockPath, len(names))
+		_ = os.WriteFile(lockPath, []byte(strings.Join(lines, "\n")+"\n"), 0o644)
+		fmt.Printf("wrote %s (%d clauses for %d obligations)\n", lockPath, len(lines), len(names))
 	}
 
 	nViol := 0
@@ -473,9 +505,13 @@ func check(prop, tier string, writeLock bool, filter string) int {
 			have := map[string]bool{}
 			for _, n := range names {
 				have[strings.TrimSuffix(n, " !dead")] = true
+				have[lockKey(strings.TrimSuffix(n, " !dead"))] = true
 			}
 			for _, l := range strings.Split(strings.TrimSpace(string(b)), "\n") {
-				l = strings.TrimSuffix(l, " !dead")
+				if strings.HasSuffix(l, " !dead") {
+					continue // only says that an unreachable return is expected, demands nothing
+				}
+				l = lockKey(l)
 				if l != "" && !have[l] {
 					nViol++
 					rp := filepath.Join(replayDir, fmt.Sprintf("%s-missing-%s.json", prop, fileSafe(l)))
@@ -650,4 +686,24 @@ func splitTopAnd(t string) []string {
 		parts = append(parts, body[start:])
 	}
 	return parts
+}
+
+var (
+	reRetSuffix  = regexp.MustCompile(`@(ret|b)\d+$`)
+	reSiteOcc    = regexp.MustCompile(`#site(\d+)\.(\d+)/\d+:`)
+	reRequiresAt = regexp.MustCompile(`#requires@(.+)/\d+:requires`)
+	reGoframe    = regexp.MustCompile(`#goframe:\d+:`)
+)
+
+// lockKey maps an obligation name to the contract clause it instantiates ("" for obligations derived from the code
+// alone, which the lock does not pin).
+func lockKey(n string) string {
+	if strings.Contains(n, "#modifies:") || strings.Contains(n, "#cover:reach") || strings.Contains(n, "#safety") {
+		return ""
+	}
+	n = reRetSuffix.ReplaceAllString(n, "")
+	n = reSiteOcc.ReplaceAllString(n, "#site$1.$2:")
+	n = reRequiresAt.ReplaceAllString(n, "#requires@$1:requires")
+	n = reGoframe.ReplaceAllString(n, "#goframe:")
+	return n
 }
